@@ -275,20 +275,28 @@ class StmtMixin:
         if s.finalbody or s.orelse or len(s.body) != 1:
             self.unsupported(s, "try statement form")
         stmt = s.body[0]
-        call = stmt.value if isinstance(stmt, (ast.Assign, ast.Expr)) else None
-        if not isinstance(call, ast.Call):
+        top = stmt.value if isinstance(stmt, (ast.Assign, ast.Expr)) else None
+        if not isinstance(top, ast.Call):
             self.unsupported(s, "try body is not a single call")
-        f = call.func
-        name = f.attr if isinstance(f, ast.Attribute) else getattr(f, "id", None)
-        c = None
-        recv = None
-        if isinstance(f, ast.Attribute):
-            rv = self.ev(f.value, st)
-            if isinstance(rv, VRec):
-                c = self.resolve_user(name, rv.ty.rname)
-                recv = rv
-        else:
-            c = self.resolve_user(name)
+        # the call that may raise: the contracted callee with a `raises` clause, possibly wrapped in conversions (str(x.get_tag(..)))
+        c = recv = call = None
+        for cand in [n for n in ast.walk(top) if isinstance(n, ast.Call)]:
+            f = cand.func
+            name = f.attr if isinstance(f, ast.Attribute) else getattr(f, "id", None)
+            c2, recv2 = None, None
+            try:
+                if isinstance(f, ast.Attribute):
+                    rv = self.ev(f.value, st)
+                    if isinstance(rv, VRec):
+                        c2 = self.resolve_user(name, rv.ty.rname)
+                        recv2 = rv
+                elif name is not None and not hasattr(self, "bi_" + name):
+                    c2 = self.resolve_user(name)
+            except Unsupported:
+                c2 = None
+            if c2 is not None and c2.raises:
+                c, recv, call = c2, recv2, cand
+                break
         if c is None or not c.raises:
             self.unsupported(s, "try around a callee without a `raises` contract")
         fdef, _, _ = self.callee_def(c)
